@@ -86,8 +86,8 @@ func main() {
 			runMatchCase(o, k, ctxs, envs, sampledTrees(r, mu, treesPerCase))
 			o.Count("cases:B-match-sampled")
 		case k < nA+nB+nC:
-			fixed := k - (nA + nB) // the first four cells of the block are the invocation stack limit
-			if fixed > 3 {
+			fixed := k - (nA + nB) // the first six cells of the block are fixed: the invocation stack limit, the entry hash deeper in the chain
+			if fixed > 5 {
 				fixed = -1
 			}
 			runDirectCase(o, k, r, du, fixed)
